@@ -61,6 +61,22 @@ func genGroupCase(t *rapid.T, withID bool) groupCase {
 		}}
 	} else {
 		base = hx.GenTable(t, hx.TableOpt{MinCols: 1, MaxCols: 6, AllowDerived: true})
+		// now and then every string cell is long (40 bytes more: equal cells stay equal, different ones different), for code
+		// that treats long keys differently (hashes kept, compared in words)
+		if rapid.IntRange(0, 5).Draw(t, "longstrings") == 0 {
+			for ci, c := range base.Cols {
+				if c.Kind != hx.KString {
+					continue
+				}
+				cells := make([]*string, len(c.S))
+				for r, p := range c.S {
+					if p != nil {
+						cells[r] = hx.Sp(*p + "-0123456789abcdef-0123456789abcdef-012345")
+					}
+				}
+				base.Cols[ci].S = cells
+			}
+		}
 	}
 	// many key columns: 9-11 nearly constant columns in front of the drawn ones, all of them keys, so that rows differ
 	// in late key columns only
@@ -173,6 +189,20 @@ func genGroupCase(t *rapid.T, withID bool) groupCase {
 			d.Route = append(d.Route, fmt.Sprintf("sorted on the first %d key(s)", np))
 			in = d.Input(t)
 		}
+	}
+	// now and then the frame's columns have served other groupings before: the same columns behind another leading key,
+	// in another order, under the other Null setting (whatever a column keeps from a grouping belongs to that grouping)
+	if nk > 0 && rapid.IntRange(0, 3).Draw(t, "priorgroupings") == 0 {
+		lead := cands[rapid.IntRange(0, len(cands)-1).Draw(t, "priorlead")]
+		prior := append([]string{lead}, perm[:nk]...)
+		rot := append(append([]string(nil), perm[1:nk]...), perm[0])
+		pn := rapid.Bool().Draw(t, "priornull")
+		_ = hx.Safely(func() {
+			_ = d.QF.Distinct(groupby.Columns(uniqNames(prior)...), groupby.Null(pn))
+			_ = d.QF.GroupBy(groupby.Columns(rot...), groupby.Null(!pn)).Aggregate()
+			_ = d.QF.Distinct(groupby.Columns(uniqNames(append([]string{"id"}, perm[:nk]...))...))
+		})
+		d.Route = append(d.Route, fmt.Sprintf("grouped before on %q and %q", prior, rot))
 	}
 	return groupCase{d: d, in: in, keys: append([]string(nil), perm[:nk]...), groupNull: rapid.Bool().Draw(t, "groupnull"), filled: filled,
 		optForm: rapid.IntRange(0, 3).Draw(t, "optform")}
